@@ -46,10 +46,18 @@ impl Curve {
     /// The delta-min vector is chosen such that it covers all
     /// arrivals until the given `horizon`.
     pub fn from_arrival_bound_until<T: ArrivalBound>(ab: &T, horizon: Duration) -> Curve {
+        // Always continue until the first non-zero distance: a
+        // delta-min prefix that consists only of zeros (i.e., that ends
+        // within the initial burst) does not describe a finite curve.
+        let mut seen_nonzero = false;
         Self::new(
             nonzero_delta_min_iter(&ab)
                 .enumerate()
-                .take_while(|(count, (_njobs, delta))| *delta <= horizon || *count < 2)
+                .take_while(|(count, (_njobs, delta))| {
+                    let take = *delta <= horizon || *count < 2 || !seen_nonzero;
+                    seen_nonzero |= delta.is_non_zero();
+                    take
+                })
                 .map(|(_count, (_njobs, delta))| delta)
                 .collect(),
         )
@@ -61,10 +69,18 @@ impl Curve {
     /// The delta-min vector is chosen such that it covers at least
     /// `up_to_njobs` job arrivals.
     pub fn from_arrival_bound<T: ArrivalBound>(ab: &T, up_to_njobs: usize) -> Curve {
+        // Always continue until the first non-zero distance: a
+        // delta-min prefix that consists only of zeros (i.e., that ends
+        // within the initial burst) does not describe a finite curve.
+        let mut seen_nonzero = false;
         Self::new(
             nonzero_delta_min_iter(&ab)
                 .enumerate()
-                .take_while(|(count, (njobs, _delta))| *njobs <= up_to_njobs || *count < 2)
+                .take_while(|(count, (njobs, delta))| {
+                    let take = *njobs <= up_to_njobs || *count < 2 || !seen_nonzero;
+                    seen_nonzero |= delta.is_non_zero();
+                    take
+                })
                 .map(|(_count, (_njobs, delta))| delta)
                 .collect(),
         )
